@@ -163,8 +163,8 @@ def run(ctx):
              "SHT.analysis, coefficient expansion and the invariants are opaque recorders (C07, C08); property functions record the points they are asked for")
     ctx.out_of_scope("the discretisation-error clause (a limit); float32 root accuracy; Brent iteration (only its call contract)")
     from . import c03 as _c03
-    ctx.stub("the crystal entry points take their Hirshfeld environment from Crystal.molecule_environment(s): that it returns every atom within the radius is C03's lemma A, run here as a dependency section")
-    ctx.parallel_sections([("descriptors", part_descriptors), ("molecule", part_molecule), ("crystal", part_crystal)] + _c03.dependency_sections({"molecule_environment"}))
+    ctx.stub("the crystal entry points take their Hirshfeld environment from Crystal.molecule_environment(s) / atomic_surroundings / atom_group_surroundings: that they search every cell within the radius is C03's lemma A, run here as a dependency section")
+    ctx.parallel_sections([("descriptors", part_descriptors), ("molecule", part_molecule), ("crystal", part_crystal)] + _c03.dependency_sections({"molecule_environment", "atomic_surroundings", "atom_group_surroundings"}))
 
 
 def _shim_sd():
